@@ -1899,6 +1899,23 @@ struct Value {
     }
 
     bool GroupBy(Value &groupedValue, const Char_T *key, const SizeT length) const {
+        // 'groupedValue' may be this value or a part of it, and 'key' may point into it: the groups are made aside.
+        Value      grouped;
+        const bool is_grouped = groupBy(grouped, key, length);
+
+        if (!(grouped.isUndefined())) {
+            groupedValue = Memory::Move(grouped);
+        }
+
+        return is_grouped;
+    }
+
+    bool GroupBy(Value &groupedValue, const Char_T *key) const {
+        return GroupBy(groupedValue, key, StringUtils::Count(key));
+    }
+
+  private:
+    bool groupBy(Value &groupedValue, const Char_T *key, const SizeT length) const {
         const ValueType type = Type();
 
         if (type == ValueType::Array) {
@@ -1968,15 +1985,13 @@ struct Value {
                 return true;
             }
         } else if (type == ValueType::ValuePtr) {
-            return value_->GroupBy(groupedValue, key, length);
+            return value_->groupBy(groupedValue, key, length);
         }
 
         return false;
     }
 
-    bool GroupBy(Value &groupedValue, const Char_T *key) const {
-        return GroupBy(groupedValue, key, StringUtils::Count(key));
-    }
+  public:
 
     // Set ascend to (false) for descend (ascend: 1,2,3; descend: 3,2,1 )
     void Sort(bool ascend = true) noexcept {
